@@ -48,6 +48,10 @@ class C16(framework.PropertyCheck):
                       "(print (for/list [e '(1 2 3)] (* e e)))", '(print (cond [(> 1 2) "a"] [else "b"]))', "(print (cadr '(1 2 3)))"]
         if r.random() < 0.3:
             extra += ["(defmacro unless2 [c e] `(unless ,c ,e))", '(unless2 #f (print "u2"))', "(print (reverse '(1 2 3)) (sort '(3 1 2)))"]
+        if r.random() < 0.3:
+            # a user macro that looks at its operands as they were written (library macro call, foldable arithmetic)
+            extra += ["(define xs9 '(1 2 3))", "(defmacro q9 [e] `',e)", '(print (q9 (sum xs9)) (q9 (+ 1 2)))',
+                      "(defmacro len9 [e] (length e))", '(print (len9 (when 1 2 3)))']
         if with_trace:
             extra += [r.choice(['(step 2)', '(step)', '(step 1)']), '(print INDEX " " t0^top.cnt)',
                       r.choice(['(print (find (= t0^top.clk 1)))', '(whenever (= t0^top.clk 1) (print "w" INDEX))', '(print t0^top.cnt@1)',
@@ -57,7 +61,8 @@ class C16(framework.PropertyCheck):
         if r.random() < 0.15:
             forms.append(r.choice(['(exit 3)', '(print undefined-variable-zz)', '(exit)',
                                    '(do (defun boom9 [a] (+ a undefined-variable-zz)) (print "in") (boom9 1))',
-                                   '(do (defun boom8 [a] (first a)) (boom8 5))']))
+                                   '(do (defun boom8 [a] (first a)) (boom8 5))',
+                                   '(do (define dd9 1) (define dd9 2))']))         # refused by the resolve pass, before evaluation
             forms.append('(print "after")')
         return forms
 
@@ -197,7 +202,8 @@ class C16(framework.PropertyCheck):
                 # a failing program: every path must fail too; the diagnostic text is not compared
                 if got_status == 0:
                     return {'what': f'path {k} reports success for a program that fails through the API', 'program': forms, 'stdout': got_out[-300:]}
-                if got_status != 70 or not got_out.startswith(out):
+                # -c holds the whole program in one form: a pass may refuse it before anything is printed
+                if got_status != 70 or (k != '-c' and not got_out.startswith(out)):
                     return {'what': f'execution path "{k}" ends a failing program differently (exit status 70 after the output printed so far)',
                             'program': forms, 'api': api, 'path': (got_status, got_out[:len(out) + 200]), 'stderr': r[3]}
                 continue
